@@ -2,9 +2,10 @@
 
 use serde_json::json;
 
-use super::c13::spec;
+use super::c13::{coordination_only, spec};
 use crate::srv::{Ev, MsgPolicy, Walk, comp_id, make_policies, run_walk};
-use crate::util::{Report, Tier, par_map};
+use crate::srvx::{SrvSpace, explore};
+use crate::util::{Budget, Report, Tier, par_map};
 
 pub fn main(tier: Tier, seed: u64) -> i32 {
     let mut rep = Report::new("C15", tier, seed, "model_checking");
@@ -25,7 +26,10 @@ pub fn main(tier: Tier, seed: u64) -> i32 {
         cfgs.push((3, 2, vec![0, 1, 2], vec![true, true, false]));
     }
     let mut jobs = vec![];
-    let mut bases = vec![];
+    let mut bases: Vec<(usize, Vec<Vec<polytune_server_core::Policy>>, Vec<Ev>)> = vec![];
+    let xbudget = Budget::new(if tier.is_thorough() { 600.0 } else { 20.0 });
+    let mut coord_states = 0u64;
+    let mut coord_capped = false;
     for (ci, (n, leader, consts, outs)) in cfgs.iter().enumerate() {
         let (sp, _) = spec(*n, *leader, consts, outs.clone());
         let pols = vec![make_policies(&sp, comp_id(seed, 1500 + ci as u64))];
@@ -46,24 +50,47 @@ pub fn main(tier: Tier, seed: u64) -> i32 {
                 if dense {
                     // the destination answers at once, or only after the client has suspended once
                     for oy in 0..2u8 {
-                        jobs.push((ci, party, at, oy));
+                        jobs.push((bases.len(), party, at, oy));
                     }
                 }
             }
         }
-        bases.push((ci, pols, base));
+        bases.push((ci, pols.clone(), base.history.clone()));
+        // every reachable coordination state (all orders of schedule calls and of validate / run /
+        // constants deliveries and replies, up to commutation of independent events): cancel right
+        // there, then continue in default order.  n=3 only in the thorough tier.
+        if *n == 2 || tier.is_thorough() {
+            let space = SrvSpace { n: *n, concurrency: 1, policies: pols.clone(), seed: crate::exec::mix(seed, 1500 + ci as u64), msg_policy: MsgPolicy::Eager };
+            let ex = explore(&space, vec![], &coordination_only, &xbudget, if tier.is_thorough() { 8_000 } else { 3_000 }, true);
+            if ex.capped {
+                coord_capped = true;
+            }
+            for m in ex.machinery.iter().take(2) {
+                rep.machinery(m.clone());
+            }
+            coord_states += ex.complete.len() as u64;
+            for (h, _) in ex.complete.iter() {
+                for party in 0..*n {
+                    for oy in 0..2u8 {
+                        jobs.push((bases.len(), party, h.len(), oy));
+                    }
+                }
+                bases.push((ci, pols.clone(), h.clone()));
+            }
+        }
     }
-    let results = par_map(&jobs, |_, _, (ci, party, at, oy)| {
-        let (_, pols, base) = bases.iter().find(|b| b.0 == *ci).unwrap();
+    let results = par_map(&jobs, |_, _, (bi, party, at, oy)| {
+        let (ci, pols, base) = &bases[*bi];
         let (n, _, _, _) = &cfgs[*ci];
-        let walk = Walk { injections: vec![(*at, Ev::Cancel { pol: 0, party: *party as u8 })], prefer: base.history.clone(), max_steps: 10_000, output_yields: *oy, ..Default::default() };
+        let walk = Walk { injections: vec![(*at, Ev::Cancel { pol: 0, party: *party as u8 })], prefer: base.clone(), max_steps: 10_000, output_yields: *oy, ..Default::default() };
         run_walk(*n, 1, pols.clone(), walk, MsgPolicy::Explicit, crate::exec::mix(seed, 1500 + *ci as u64))
     });
     let mut states = 0u64;
     let mut transitions = 0u64;
     let mut cancelled_ok = 0u64;
     let mut kinds: std::collections::BTreeMap<String, u64> = Default::default();
-    for ((ci, party, at, oy), r) in jobs.iter().zip(results.iter()) {
+    for ((bi, party, at, oy), r) in jobs.iter().zip(results.iter()) {
+        let ci = &bases[*bi].0;
         let (n, leader, consts, outs) = &cfgs[*ci];
         let r = match r {
             Ok(r) => r,
@@ -102,7 +129,14 @@ pub fn main(tier: Tier, seed: u64) -> i32 {
                 if snap.actors.iter().any(|(_, p, created, finished)| *p as usize == *party && *created < c.seq && finished.is_none()) {
                     rep.violation("actor_alive_after_cancel", format!("{desc}: cancel returned Ok but the state machine is still running"), replay.clone());
                 }
-                if outs[*party] {
+                // a party that had not been given its policy when cancel arrived (state machine created by
+                // a peer's validate call, or not at all) knows no destination: nothing to notify, and a
+                // later schedule call legitimately starts a new state machine
+                let cancel_pos = r.history.iter().position(|e| matches!(e, Ev::Cancel { .. })).unwrap_or(0);
+                let scheduled_before = r.history[..cancel_pos].iter().any(|e| matches!(e, Ev::Schedule { party: p, .. } if *p as usize == *party));
+                if !scheduled_before {
+                    *kinds.entry("Ok/not yet scheduled".into()).or_insert(0) += 1;
+                } else if outs[*party] {
                     match outs_p.as_slice() {
                         [o] => {
                             let fine = match &o.result {
@@ -136,9 +170,10 @@ pub fn main(tier: Tier, seed: u64) -> i32 {
     rep.set("transitions", json!(transitions));
     rep.set("traces_validated_against_impl", json!(states));
     rep.set("cancel_outcomes", json!(kinds));
-    rep.set("base_history_lengths", json!(bases.iter().map(|b| b.2.history.len()).collect::<Vec<_>>()));
-    rep.exhaustive = Some(true);
-    rep.rule = "per configuration (n, leader, constants, destinations): the default-order history with explicit MPC-message events is the base; cancel is injected for each party after every k-th event among coordination events, compile completions and (quick: every 4th, thorough: every) MPC message; the run is then continued until quiescence; each injection is run with a client whose output call completes at once and with one that suspends once before completing (a notification counts as sent when the call has completed). states = injected histories executed on the real actors; non-trivial = cancel returned Ok".into();
+    rep.set("coordination_states_with_cancel", json!(coord_states));
+    rep.set("coordination_exploration_capped", json!(coord_capped));
+    rep.exhaustive = Some(!coord_capped);
+    rep.rule = "per configuration (n, leader, constants, destinations): the default-order history with explicit MPC-message events is the base; cancel is injected for each party after every k-th event among coordination events, compile completions and (quick: every 4th, thorough: every) MPC message; the run is then continued until quiescence; in addition (n=2; n=3 in the thorough tier) cancel is injected for each party in every reachable coordination state, i.e. after every history of schedule / validate / run / constants / compile events up to commutation of independent events, as enumerated by the C13 explorer; each injection is run with a client whose output call completes at once and with one that suspends once before completing (a notification counts as sent when the call has completed). states = injected histories executed on the real actors; non-trivial = cancel returned Ok".into();
     rep.assumptions = vec![
         "current-thread runtime; the two orders 'spawned MPC task polled before/after notify_one' are both reached through the compile-gate choice point".into(),
         "a multi-threaded runtime is not explored".into(),
